@@ -568,7 +568,13 @@ def surrogate_history(ctx, rng):
 
 def run_shard(ctx, args):
     rng = ctx.rng
+    cap = 600 if ctx.tier == "quick" else 2400
     for it in range(args["n"]):
+        if ctx.elapsed() > cap:
+            # sizing of the workload only (stiff histories are slow); no
+            # verdict depends on the clock
+            ctx.count("histories_not_generated_time_cap", args["n"] - it)
+            break
         case = random_history(ctx, rng)
         if it == 0:
             ctx.sample({k: case[k] for k in ("instance", "cls", "collecting",
